@@ -383,7 +383,8 @@ theorem conversions_total (cfg : LexCfg) :
         convNumber cfg m pos = .tok ⟨.number, .int (digitsVal cfg.chars m.int), pos⟩ m.len) ∨
       (∃ d2, m.frac = some d2 ∧
         convNumber cfg m pos =
-          .tok ⟨.number, .flt (asciiDigits cfg.chars m.int ++ '.' :: asciiDigits cfg.chars d2), pos⟩ m.len) ∨
+          .tok ⟨.number, .flt (asciiDigits cfg.chars m.int ++ '.' :: asciiDigits cfg.chars d2)
+            (literalFloat cfg.chars m.int d2), pos⟩ m.len) ∨
       (m.frac = none ∧ cfg.maxDigits ≠ 0 ∧ cfg.maxDigits < m.int.length ∧
         convNumber cfg m pos = .err (.lexical m.int pos))) ∧
     (∀ (content : List Char) (pos : Nat),
